@@ -19,13 +19,25 @@ def parseTok (t : String) : Option Ev := do
     | "l", [c] => pure (.lost c)
     | "S", [n] => pure (.stopBeg n)
     | "T", [n, r] => pure (.stopRet n r)
+    | "gf", [a, b] => pure (.gfeed a b)
+    | "gh", [a, b] => pure (.ghandled a b)
+    | "gx", [a, b] => pure (.gabandoned a b)
     | _, _ => none
   | [] => none
 
+def opShapeOk : List String → Bool
+  | "stop" :: fs => fs.length == 11 && fs.all (fun f => f.toNat?.isSome)
+  | "longkey" :: fs => fs.length == 2 && fs.all (fun f => f.toNat?.isSome) && (fs.head?.bind String.toNat?).any (· ≤ 64)
+  | "gwstop" :: fs =>
+    match fs.mapM String.toNat? with
+    | some [w, b, bud, _] => 1 ≤ w && w ≤ 4 && b ≤ 6 && 1 ≤ bud && bud ≤ 1000
+    | _ => false
+  | _ => false
+
 def c41Step (_ : Unit) (op impl : String) : Unit × String × String :=
   match fields op with
-  | "stop" :: fs =>
-    if !(fs.length == 11 && fs.all (fun f => f.toNat?.isSome)) then ((), "bad-op", "ok") else
+  | k :: fs =>
+    if !(opShapeOk (k :: fs)) then ((), "bad-op", "ok") else
     if impl == "bad-op" then ((), "-", "ok") else
     if impl == "ev=-" then ((), "-", "ok") else
     match (if impl.startsWith "ev=" then ((impl.drop 3).toString.splitOn ",").mapM parseTok else none) with
